@@ -64,4 +64,65 @@ theorem H5WF_perm (T : PhaseTables) (ni : PhaseRec) (m : MapRec) (ps : List Prop
   phases_sorted := h.phases_sorted
   phases_consistent := h.phases_consistent
 
+/-! ### the constructor keeps a phase list that is consistent with the data -/
+
+theorem rekeyRec_self (pl : List PhaseRec) : rekeyRec (pl.map (·.id)) pl = pl := by
+  induction pl with
+  | nil => rfl
+  | cons p r ih => simp [rekeyRec, ih]
+
+theorem dropSuperfluousRec_last (u : List Int) (l : List PhaseRec) (a : PhaseRec)
+    (hl : ∀ p ∈ l, p.id ∈ u) (ha : a.id ∉ u) :
+    dropSuperfluousRec u 1 (l ++ [a]) = l := by
+  induction l with
+  | nil => simp [dropSuperfluousRec, ha]
+  | cons p r ih =>
+    have hp : p.id ∈ u := hl p (by simp)
+    simp [dropSuperfluousRec, hp, ih (fun q hq => hl q (by simp [hq]))]
+
+/-- **declarative form of `H5WF.phases_consistent`**: if the phase list is the `not_indexed` phase (exactly
+the one `add_not_indexed` creates, present iff some point has phase id -1) followed by phases with strictly
+increasing non-negative ids that are exactly the ids occurring in the data, the constructor returns it unchanged -/
+theorem reconcileRec_consistent (ni : PhaseRec) (hni : ni.id = -1) (ids : List Int) (rp : List PhaseRec) (has : Bool)
+    (hs : (rp.map (·.id)).Pairwise (· < ·)) (hpos : ∀ p ∈ rp, -1 < p.id)
+    (hm : ∀ a, a ∈ ids ↔ (a = -1 ∧ has = true) ∨ a ∈ rp.map (·.id)) :
+    reconcileRec ni ids ((if has then [ni] else []) ++ rp) = some ((if has then [ni] else []) ++ rp) := by
+  cases has with
+  | false =>
+    have hu : uniqSorted ids = rp.map (·.id) := uniqSorted_eq hs (fun a => by simpa using hm a)
+    have hh : ((rp.map (·.id)).head? == some (-1 : Int)) = false := by
+      cases rp with
+      | nil => rfl
+      | cons p r =>
+        have := hpos p (by simp)
+        have hne : p.id ≠ -1 := by omega
+        simp [hne]
+    simp only [Bool.false_eq_true, if_false, List.nil_append]
+    simp only [reconcileRec, hu, hh, Bool.false_eq_true, if_false, List.length_map, lt_irrefl, Nat.sub_self,
+      dropSuperfluousRec, List.reverse_reverse, rekeyRec_self]
+  | true =>
+    have ht : ((-1 : Int) :: rp.map (·.id)).Pairwise (· < ·) := by
+      refine List.Pairwise.cons ?_ hs
+      intro a ha
+      obtain ⟨p, hp, rfl⟩ := List.mem_map.1 ha
+      exact hpos p hp
+    have hu : uniqSorted ids = (-1 : Int) :: rp.map (·.id) := uniqSorted_eq ht (fun a => by simpa using hm a)
+    have hdrop : dropSuperfluousRec (rp.map (·.id)) 1 (rp.reverse ++ [ni]) = rp.reverse :=
+      dropSuperfluousRec_last _ _ _
+        (fun p hp => List.mem_map_of_mem (f := (·.id)) (List.mem_reverse.1 hp))
+        (by
+          rw [hni]
+          intro hmem
+          obtain ⟨p, hp, hpid⟩ := List.mem_map.1 hmem
+          have := hpos p hp
+          omega)
+    have hfilter : rp.filter (fun p => p.id != -1) = rp := by
+      rw [List.filter_eq_self]
+      intro p hp
+      have := hpos p hp
+      have hne : p.id ≠ -1 := by omega
+      simpa using hne
+    simp only [if_true, List.singleton_append]
+    simp [reconcileRec, hu, hdrop, rekeyRec_self, hfilter]
+
 end Orix.Codec.H5
